@@ -13,7 +13,7 @@ def check(ctx, rep):
         "the path condition contains an already-started test on that job which the start itself makes true "
         "synchronously (it reads the task registry), or no may-suspend await lies between the main wait and "
         "the start. R02.4 the wrapper awaits the job body exactly once per task (no retry loop) and only while "
-        "holding its slot. R02.5 (= R05.1) the run tells a tolerated failure from a critical one exactly: the accumulator is the exists-fold `raised and critical` over the done set, so that success is never reported over a critical failure. R02.6 what the run reads to tell that a job raised - raised_exception() - is, for atomic jobs and nested schedulers alike, the exception of the job's own task (truth table over the life-cycle domain). R02.7 in the run, its nested form, the window wrapper and their private coroutines, an exception value is compared with None, never used as a boolean (its truth value is whatever its class says).")
+        "holding its slot. R02.5 (= R05.1) the run tells a tolerated failure from a critical one exactly: the accumulator is the exists-fold `raised and critical` over the done set, so that success is never reported over a critical failure. R02.6 what the run reads to tell that a job raised - raised_exception() - is, for atomic jobs and nested schedulers alike, the exception of the job's own task (truth table over the life-cycle domain). R02.7 in the run, its nested form, the window wrapper and their private coroutines, an exception value is compared with None, never used as a boolean (its truth value is whatever its class says). R02.4 also: every normal return of the wrapper has awaited the job body (a task that ends is a job that ran). R02.8 (= R04.4) the wrapper and the coroutine-based job class hand on what the user coroutine returns and let what it raises through as it is: no handler or `contextlib.suppress` around the await swallows or replaces it (a critical job that raises is never recorded as having returned).")
     rep.trusted = ["T1 asyncio.wait partitions its argument", "T2", "T7 gather() of finished futures may suspend (CPython <= 3.11)"]
     runrules.success_accounting(ctx, rep, "R02.1")
     runrules.batches_disjoint(ctx, rep, "R02.2")
@@ -22,3 +22,4 @@ def check(ctx, rep):
     runrules.detection_exact(ctx, rep, "R02.5")
     predicates.outcome_tables(ctx, rep, "R02.6", names=("raised_exception",))
     common.exception_truthiness(ctx, rep, "R02.7")
+    predicates.identity_flow(ctx, rep, "R02.8")
